@@ -680,7 +680,18 @@ impl LatestBlockFilterHashes {
             );
             return Err(StatusCode::Ignore.with_context(errmsg));
         }
-        let mut end_number = start_number + block_filter_hashes.len() as BlockNumber - 1;
+        let mut end_number = if let Some(end_number) =
+            start_number.checked_add(block_filter_hashes.len() as BlockNumber - 1)
+        {
+            end_number
+        } else {
+            let errmsg = format!(
+                "start number ({}) plus the count of block filter hashes ({}) overflows",
+                start_number,
+                block_filter_hashes.len()
+            );
+            return Err(StatusCode::MalformedProtocolMessage.with_context(errmsg));
+        };
         if finalized_check_point_number >= end_number {
             let errmsg = format!(
                 "finalized check point ({}) is not less than end number ({})",
